@@ -81,6 +81,11 @@ func c13dRun(w *c13World, c c13dCase) (fp, detail, outcome string) {
 			zones[tn] = mockdns.Zone{AD: false, Misc: map[dns.Type][]dns.RR{dns.Type(dns.TypeTLSA): {mk(match[:])}}}
 		case "servfail":
 			zones[tn] = mockdns.Zone{AD: true, Err: errors.New("scripted SERVFAIL")}
+		case "unusable":
+			// an authenticated RRset made only of records outside the defined parameter ranges
+			r1, r2, r3 := mk(match[:]), mk(match[:]), mk(match[:])
+			r1.Usage, r2.Selector, r3.MatchingType = 4, 2, 3
+			zones[tn] = mockdns.Zone{AD: true, Misc: map[dns.Type][]dns.RR{dns.Type(dns.TypeTLSA): {r1, r2, r3}}}
 		}
 	}
 	put(addrName, c.AtCanon)
@@ -171,6 +176,15 @@ func c13dRun(w *c13World, c c13dCase) (fp, detail, outcome string) {
 			return "C13:discovery:records-without-tls-not-refused", fmt.Sprintf("level %v", lvl), ""
 		}
 		outcome = "usable matching record: " + c.TLS
+	case applies == "unusable":
+		// records exist: TLS is mandatory; none of them can authenticate or refuse a TLS session
+		if c.TLS == "none" && err == nil {
+			return "C13:discovery:records-without-tls-not-refused", fmt.Sprintf("only unusable records are published and the session has no TLS: level %v, no error", lvl), ""
+		}
+		if c.TLS == "leaf" && (granted || err != nil) {
+			return "C13:discovery:unusable-records-decide", fmt.Sprintf("only unusable records: level %v err %v", lvl, err), ""
+		}
+		outcome = "only unusable records: " + c.TLS
 	case applies == "mismatch":
 		if err == nil {
 			return "C13:discovery:no-match-not-refused", fmt.Sprintf("level %v, TLS %s", lvl, c.TLS), ""
@@ -191,7 +205,7 @@ func c13dRun(w *c13World, c c13dCase) (fp, detail, outcome string) {
 func TestVerifC13Discovery(t *testing.T) {
 	r := vx.Start("C13", "discovery")
 	defer r.Finish()
-	r.Rule("TLSA discovery for one MX through the real PrepareConn/CheckConn of the dane policy and the real DNSSEC-aware resolver against a loopback DNS server: MX name {plain, secure CNAME, insecure CNAME} x address records {A, AAAA only, both} authenticated or not x TLSA at the canonical name {none, matching EE, mismatching EE, SERVFAIL, not authenticated} x TLSA at the MX name (for aliases, the same five) x TLS {none, matching leaf}; plus the same records served by a non-loopback fallback resolver (the loopback one does not answer); oracle: nothing from a non-loopback resolver is authenticated, a failed lookup of the applicable record set defers (temporary error), usable records are applied as in the statement, absent / non-authenticated records neither grant nor refuse. Non-trivial: all cases")
+	r.Rule("TLSA discovery for one MX through the real PrepareConn/CheckConn of the dane policy and the real DNSSEC-aware resolver against a loopback DNS server: MX name {plain, secure CNAME, insecure CNAME} x address records {A, AAAA only, both} authenticated or not x TLSA at the canonical name {none, matching EE, mismatching EE, SERVFAIL, not authenticated} x TLSA at the MX name (for aliases, the same five) x TLS {none, matching leaf}; plus an authenticated record set holding only records outside the defined parameter ranges; plus the same records served by a non-loopback fallback resolver (the loopback one does not answer); oracle: nothing from a non-loopback resolver is authenticated, a failed lookup of the applicable record set defers (temporary error), usable records are applied as in the statement, absent / non-authenticated records neither grant nor refuse. Non-trivial: all cases")
 	w := c13NewWorld()
 	if rp := r.Replay(); rp != nil {
 		var c c13dCase
@@ -230,6 +244,28 @@ func TestVerifC13Discovery(t *testing.T) {
 				continue
 			}
 			r.Outcome("non-loopback resolver: " + oc)
+		}
+	}
+	// an authenticated RRset that holds only records outside the defined parameter ranges
+	for _, t := range []string{"none", "leaf"} {
+		for _, addr := range []string{"", "aaaa"} {
+			idx++
+			if !r.Mine(idx) {
+				continue
+			}
+			c := c13dCase{Alias: "plain", AD: true, AtCanon: "unusable", AtOrig: "none", TLS: t, Addr: addr}
+			fp, detail, oc := c13dRun(w, c)
+			r.Eval()
+			r.Nontrivial(vx.JSON(c))
+			if fp == "HARNESS:dns" {
+				r.HarnessError(detail)
+				return
+			}
+			if fp != "" {
+				r.Violation(fp, detail+"\ncase: "+vx.JSON(c), c)
+				continue
+			}
+			r.Outcome(oc)
 		}
 	}
 	for _, alias := range []string{"plain", "cname-secure", "cname-insecure"} {
